@@ -132,9 +132,8 @@ def run(ctx: core.Ctx):
     ctx.under_contract(sc.compress_preparation_circuit)
     ctx.under_contract(Stabilizer.__init__)
     ctx.selfcheck["oracle_gate_rules_checked_densely"] = P.selftest()
-    from ..contracts import pipeline
-    from .. import symrun
-    symrun.run(ctx, pipeline.glue_tasks(), label="glue")       # glue code verified modularly against the callees' contracts (all n)
+    from .. import prereq, symrun
+    prereq.pipeline_contracts(ctx)       # glue code (all n), layer-search segment contracts (all inputs), purity of the pipeline functions
     frame_ast(ctx)
     t = time.time()
     jobs = circuit_jobs(ctx)
